@@ -1,3 +1,4 @@
+import TmcgProps.C04Args
 import TmcgProps.C04CutChoose
 import TmcgProofs.SigmaSound
 /-
